@@ -37,6 +37,9 @@ class Harness:
     wall_limit: float = 120.0  # per-run real-time watchdog, a backstop only (harness error when exceeded); generous because the machine may be heavily loaded
 
 
+SHRINK_WALL_LIMIT = 10.0  # seconds of real time a minimisation candidate may take
+
+
 class RunTimeout(HarnessError):
     pass
 
@@ -61,7 +64,7 @@ class RunResult:
     notes: dict
 
 
-def run_one(h: Harness, seed: int, choices: Sequence[int] | None = None, avoid_known: bool = True, want_digest: bool = True) -> RunResult:
+def run_one(h: Harness, seed: int, choices: Sequence[int] | None = None, avoid_known: bool = True, want_digest: bool = True, wall_limit: float | None = None) -> RunResult:
     world = World(seed, choices)
     world.avoid_known = avoid_known  # type: ignore[attr-defined]
     world.notes = {}  # type: ignore[attr-defined]
@@ -70,7 +73,7 @@ def run_one(h: Harness, seed: int, choices: Sequence[int] | None = None, avoid_k
     gc_was = gc.isenabled()
     gc.disable()
     old = signal.signal(signal.SIGALRM, _alarm)
-    signal.setitimer(signal.ITIMER_REAL, h.wall_limit)
+    signal.setitimer(signal.ITIMER_REAL, wall_limit if wall_limit is not None else h.wall_limit)
     try:
         try:
             h.fn(world)
@@ -181,7 +184,9 @@ def shrink(h: Harness, seed: int, choices: list[int], avoid_known: bool, key: st
         if runs >= budget or _perf() > deadline:
             return None
         runs += 1
-        r = run_one(h, seed, cand, avoid_known, want_digest=False)
+        # a candidate is a mutilated choice list: it may send the code under test (a mutated tree, typically) into a run that only
+        # the watchdog ends; such a candidate is simply not "the same failure", and must not cost the full per-run watchdog each time
+        r = run_one(h, seed, cand, avoid_known, want_digest=False, wall_limit=min(h.wall_limit, SHRINK_WALL_LIMIT))
         if r.violation is not None and r.violation["key"] == key:
             return _strip(r.choices)
         return None
@@ -442,7 +447,8 @@ def main(argv: list[str] | None = None) -> int:
     ctx = multiprocessing.get_context("fork")
     results: list[dict] = []
     harness_error = None
-    with concurrent.futures.ProcessPoolExecutor(max_workers=jobs, mp_context=ctx) as ex:
+    ex = concurrent.futures.ProcessPoolExecutor(max_workers=jobs, mp_context=ctx)
+    try:
         futs = [ex.submit(_worker, pid, args.tier, args.seed, w, jobs, budget, args.runs) for w in range(jobs)]
         for w, fut in enumerate(futs):
             try:
@@ -450,6 +456,16 @@ def main(argv: list[str] | None = None) -> int:
             except BaseException as e:  # dead worker, timeout
                 harness_error = f"worker {w} failed: {type(e).__name__}: {e}"
                 break
+    finally:
+        # Do not wait for the worker processes: with a mutated tree, simulated threads of an aborted run may be stuck for good
+        # (non-daemon threads keep their process alive at interpreter shutdown), and every result has been received already.
+        procs = list(getattr(ex, "_processes", {}).values())
+        ex.shutdown(wait=False, cancel_futures=True)
+        for proc in procs:
+            try:
+                proc.kill()
+            except Exception:
+                pass
     wall = _perf() - t0
     if harness_error:
         print(f"HARNESS-ERROR property={pid} {harness_error}")
